@@ -3,6 +3,7 @@
 mod ad;
 mod df;
 mod es;
+mod pl;
 mod replay;
 mod rf;
 mod t1;
@@ -37,7 +38,7 @@ macro_rules! walk_sizes {
 
 /// replay of scenario kinds added by later modules
 pub fn replay_other(line: &str, w: &mut impl std::io::Write) -> bool {
-    ad::replay_line(line, w) || rf::replay_line(line, w)
+    ad::replay_line(line, w) || rf::replay_line(line, w) || pl::replay_line(line, w)
 }
 
 fn main() {
@@ -90,7 +91,19 @@ fn main() {
         "df" => df::run(thorough, seed, &mut w),
         "chain" | "take" => ad::run(&mode, thorough, seed, &mut w),
         "rf" | "rfe" => rf::run(&mode, thorough, seed, &mut w),
+        "pl" => pl::run(thorough, seed, &mut w),
         "es" => es::run(thorough, seed, &mut w),
+        "c18" => {
+            // inline storage: SIZE bytes and two indices, nothing else; usable in a static through the const fn
+            static IN_STATIC: fixed_buffer::FixedBuf<16> = fixed_buffer::FixedBuf::new();
+            macro_rules! sz { ($($n:literal),*) => { $( writeln!(w, "SZ {} {} {}", $n, core::mem::size_of::<fixed_buffer::FixedBuf<$n>>(), core::mem::align_of::<fixed_buffer::FixedBuf<$n>>()).unwrap(); )* } }
+            sz!(0, 1, 2, 3, 4, 5, 6, 7, 8, 9, 15, 16, 17, 31, 32, 33, 63, 64, 100, 255, 256, 1000, 4096, 65536, 131072);
+            let s0 = count_on();
+            let copy = IN_STATIC;
+            let a = count_off(s0);
+            writeln!(w, "ST {} {} {}", core::mem::size_of_val(&IN_STATIC), copy.len(), a).unwrap();
+            eprintln!("STAT c18 sizes=25 static=1");
+        }
         "replay" => replay::run(&mut w),
         _ => {
             eprintln!("usage: fbharness t1 [--tier quick|thorough] [--seed N]");
